@@ -69,12 +69,14 @@ package rib
 
 // holderWF: representation invariant of one network-instance RIB.
 //@ pred holderWF(h *RIBHolder) = h != nil && h.r != nil && h.r.Afts != nil && h.refCounts != nil
-//@   && h.refCounts.NextHop != nil && h.refCounts.NextHopGroup != nil && tablesAllocated(h.r.Afts)
+//@   && h.refCounts.NextHop != nil && h.refCounts.NextHopGroup != nil && h.refCounts.NextHop != h.refCounts.NextHopGroup && tablesAllocated(h.r.Afts)
+//@   && (forall i: uint64 :: h.refCounts.NextHop[i] <= 18446744073709551615 && h.refCounts.NextHopGroup[i] <= 18446744073709551615
+//@       && 0 <= h.refCounts.NextHop[i] && 0 <= h.refCounts.NextHopGroup[i])
 //@ pred nilOrAllocated(x Int) = x == 0 || (0 < x && x < top)
 //@ pred tablesAllocated(A *aft.Afts) = nilOrAllocated(A.Ipv4Entry) && nilOrAllocated(A.Ipv6Entry) && nilOrAllocated(A.LabelEntry)
 //@   && nilOrAllocated(A.NextHopGroup) && nilOrAllocated(A.NextHop)
 
-//@ pred wrap64(x Int) = x % 18446744073709551616
+//@ pred wrap64(x Int) = ite(x < 18446744073709551616, x, x - 18446744073709551616)
 
 //@ unit RIBHolder.incNHGRefCount
 //@ requires holderWF(r)
@@ -566,7 +568,12 @@ package rib
 
 
 // ---- resolution and deletion checks (C02, C03) ----
-//@ pred holdersWF(r *RIB) = r != nil && r.defaultName in dom(r.niRIB) && (forall k in dom(r.niRIB) :: holderWF(r.niRIB[k]))
+//@ pred holdersWF(r *RIB) = r != nil && r.defaultName in dom(r.niRIB) && (forall k in dom(r.niRIB) :: holderWF(r.niRIB[k]) && r.niRIB[k].name == k) && holdersSeparate(r)
+// holdersSeparate: network instances share no storage (each is built by its own NewRIBHolder call).
+//@ pred holdersSeparate(r *RIB) = forall a in dom(r.niRIB), b in dom(r.niRIB) :: a != b ==> r.niRIB[a] != r.niRIB[b] && r.niRIB[a].refCounts != r.niRIB[b].refCounts
+//@   && r.niRIB[a].refCounts.NextHopGroup != r.niRIB[b].refCounts.NextHopGroup && r.niRIB[a].refCounts.NextHop != r.niRIB[b].refCounts.NextHop
+//@   && r.niRIB[a].refCounts.NextHopGroup != r.niRIB[b].refCounts.NextHop && r.niRIB[a].r != r.niRIB[b].r && r.niRIB[a].r.Afts != r.niRIB[b].r.Afts
+//@ pred registered(r *RIB, h *RIBHolder) = h != nil && h.name in dom(r.niRIB) && r.niRIB[h.name] == h
 // candWF: the candidate built by candidateRIB keys every list entry by the entry's own key leaf.
 //@ pred candWF(C *aft.Afts) = (forall k in dom(C.NextHopGroup) :: C.NextHopGroup[k] != nil && (forall i in dom(C.NextHopGroup[k].NextHop) :: C.NextHopGroup[k].NextHop[i] != nil && C.NextHopGroup[k].NextHop[i].GetIndex() == i))
 //@   && (forall k in dom(C.NextHop) :: C.NextHop[k] != nil && C.NextHop[k].GetIndex() == k)
@@ -640,3 +647,84 @@ package rib
 //@ ensures[unknown-op] t != constants.Add && t != constants.Delete ==> result1 != nil && !result0
 //@ assigns nothing
 //@ props C02 C03 C12:safety
+
+// ---- reference counters (C03) ----
+//@ unit isNil
+//@ trusted reflection-based nil test (reflect.ValueOf(t).IsNil() for pointer kinds)
+//@ ensures result0 <==> t == nil
+//@ assigns nothing
+
+// refTarget: the instance whose group counter an entry with group network-instance ni refers to.
+//@ pred refTarget(r *RIB, h *RIBHolder, ni string) = ite(ni == "", h, r.niRIB[ni])
+//@ pred refOK(r *RIB, ni string) = ni == "" || ni in dom(r.niRIB)
+//@ pred dec64(x Int) = ite(x == 0, 0, x - 1)
+//@ pred nhgCount(h *RIBHolder, g uint64) = h.refCounts.NextHopGroup[g]
+//@ pred nhCount(h *RIBHolder, i uint64) = h.refCounts.NextHop[i]
+
+//@ unit handleReferences
+//@ requires holdersWF(r) && registered(r, niRIB)
+//@ ensures[first-reference] original == nil && refOK(r, new.GetNextHopGroupNetworkInstance().GetValue())
+//@   ==> nhgCount(refTarget(r, niRIB, new.GetNextHopGroupNetworkInstance().GetValue()), new.GetNextHopGroup().GetValue())
+//@       == wrap64(old(nhgCount(refTarget(r, niRIB, new.GetNextHopGroupNetworkInstance().GetValue()), new.GetNextHopGroup().GetValue())) + 1)
+//@ ensures[same-target] original != nil && new.GetNextHopGroupNetworkInstance().GetValue() == original.GetNextHopGroupNetworkInstance()
+//@   && new.GetNextHopGroup().GetValue() == original.GetNextHopGroup()
+//@   ==> nhgCount(refTarget(r, niRIB, original.GetNextHopGroupNetworkInstance()), original.GetNextHopGroup())
+//@       == old(nhgCount(refTarget(r, niRIB, original.GetNextHopGroupNetworkInstance()), original.GetNextHopGroup()))
+//@ ensures[moved] original != nil && refOK(r, new.GetNextHopGroupNetworkInstance().GetValue()) && refOK(r, original.GetNextHopGroupNetworkInstance())
+//@   && (refTarget(r, niRIB, new.GetNextHopGroupNetworkInstance().GetValue()) != refTarget(r, niRIB, original.GetNextHopGroupNetworkInstance())
+//@       || new.GetNextHopGroup().GetValue() != original.GetNextHopGroup())
+//@   ==> nhgCount(refTarget(r, niRIB, original.GetNextHopGroupNetworkInstance()), original.GetNextHopGroup())
+//@         == dec64(old(nhgCount(refTarget(r, niRIB, original.GetNextHopGroupNetworkInstance()), original.GetNextHopGroup())))
+//@    && nhgCount(refTarget(r, niRIB, new.GetNextHopGroupNetworkInstance().GetValue()), new.GetNextHopGroup().GetValue())
+//@         == wrap64(old(nhgCount(refTarget(r, niRIB, new.GetNextHopGroupNetworkInstance().GetValue()), new.GetNextHopGroup().GetValue())) + 1)
+//@ ensures[wf] holdersWF(r) && holderWF(niRIB)
+//@ assigns refTarget(r, niRIB, new.GetNextHopGroupNetworkInstance().GetValue()).refCounts.NextHopGroup[new.GetNextHopGroup().GetValue()],
+//@   refTarget(r, niRIB, original.GetNextHopGroupNetworkInstance()).refCounts.NextHopGroup[original.GetNextHopGroup()]
+//@ props C03 C12:safety
+
+
+// inNew: the group message lists next-hop index i (at least once).
+//@ pred inNew(g *aftpb.Afts_NextHopGroup, i uint64) = exists j in 0..len(g.NextHop) :: g.NextHop[j].GetIndex() == i
+//@ pred inNewUpTo(g *aftpb.Afts_NextHopGroup, n Int, i uint64) = exists j in 0..n :: g.NextHop[j].GetIndex() == i
+//@ pred groupWF(g *aft.Afts_NextHopGroup) = forall k in dom(g.NextHop) :: g.NextHop[k] != nil && g.NextHop[k].GetIndex() == k
+
+//@ unit RIB.handleNHGReferences
+//@ requires holderWF(niRIB) && new != nil && (original != nil ==> groupWF(original))
+//@ requires[wire-valid] forall j in 0..len(new.NextHop) :: new.NextHop[j] != nil
+//@ ensures[set-semantics] forall i: uint64 :: nhCount(niRIB, i) == ite(original != nil && i in dom(original.NextHop),
+//@      dec64(wrap64(old(nhCount(niRIB, i)) + ite(inNew(new, i), 1, 0))), wrap64(old(nhCount(niRIB, i)) + ite(inNew(new, i), 1, 0)))
+//@ ensures[wf] holderWF(niRIB)
+//@ loop 1 at "range new.NextHop" invariant forall i: uint64 :: nhCount(niRIB, i) == wrap64(old(nhCount(niRIB, i)) + ite(i in dom(counted), 1, 0))
+//@ loop 1 invariant forall i: uint64 :: i in dom(counted) <==> inNewUpTo(new, loopi, i)
+//@ loop 1 invariant holderWF(niRIB) && counted != nil && loopi <= len(new.NextHop) && (forall i in dom(counted) :: counted[i])
+//@ loop 2 at "range original.NextHop" invariant forall i: uint64 :: nhCount(niRIB, i) == ite(i in visited,
+//@      dec64(wrap64(old(nhCount(niRIB, i)) + ite(inNew(new, i), 1, 0))), wrap64(old(nhCount(niRIB, i)) + ite(inNew(new, i), 1, 0)))
+//@ loop 2 invariant holderWF(niRIB) && original != nil && groupWF(original) && (forall k in visited :: k in dom(original.NextHop))
+//@ assigns contents(niRIB.refCounts.NextHop)
+//@ props C03 C12:safety
+
+
+// ---- resolved-entry hook and RIB copies ----
+//@ guarded_by RIBHolder.mu: postChangeHook
+
+//@ unit RIB.copyRIBs
+//@ requires r != nil && (forall k in dom(r.niRIB) :: r.niRIB[k] != nil && r.niRIB[k].r != nil)
+//@ requires[unlocked] nolocks(RIBHolder.mu)
+//@ ensures[ok] result1 == nil && result0 != nil && fresh(result0)
+//@ ensures[same-instances] dom(result0) == dom(r.niRIB)
+//@ ensures[fresh-copies] forall k in dom(result0) :: result0[k] != nil && fresh(result0[k])
+//@ loop 1 at "range r.niRIB" invariant (forall k in visited :: k in dom(r.niRIB) ==> k in dom(rib) && rib[k] != nil && fresh(rib[k]))
+//@ loop 1 invariant (forall k in dom(rib) :: k in visited && k in dom(r.niRIB)) && rib != nil && fresh(rib)
+//@ loop 1 invariant held(r.nrMu) == 1 && (nolocks(RIBHolder.mu))
+//@ assigns nothing
+//@ props C16 C11:lock C12:safety
+
+//@ unit RIB.callResolvedEntryHook
+//@ requires r != nil && (forall k in dom(r.niRIB) :: r.niRIB[k] != nil && r.niRIB[k].r != nil)
+//@ requires[unlocked] nolocks(RIBHolder.mu)
+//@ requires held(r.nrMu) == 0
+//@ ensures[ok] result0 == nil
+//@ ensures[called-iff-set] spawned == old(spawned) + ite(r.resolvedEntryHook != nil, 1, 0)
+//@ assigns spawned
+//@ props C16 C12:safety
+
